@@ -4,13 +4,16 @@ import json, subprocess
 S4_NOTE = ("Trusted base: the harness's M-broker reference model (written from the statements and MQTT rules), the guarded hooks "
            "(verif-hooks: router stepping, snapshot, link peek; they do not change what the router computes), single-threaded stepping of the "
            "real Router (every schedule of the production system is a sequence of events()/consume() steps interleaved with link actions, "
-           "which is what the harness drives; interleavings inside flume/parking_lot are not exercised). Held on the histories counted in the "
+           "which is what the harness drives). Held on the histories counted in the "
            "evidence file, not proved. Known genuine defects are listed in /verif/known_findings.json and their triggers are confined to ~15% "
            "of the histories.")
 S1_NOTE = ("Trusted base: the harness's own reference encoder / fixed-header parser / models (written from the MQTT specifications). "
            "Every call into the code under test runs under catch_unwind with overflow checks on. Held on the inputs counted in the evidence file.")
+S5_ADD = (" In addition the check runs rounds of the threaded substrate S5 (real Router::spawn() thread with the production run loop, 9-12 client threads on real links, "
+          "random yields/sleeps) judged by an offline checker over the recorded client-boundary histories at a logical quiescent point (router blocked or completing turns "
+          "without output, every event handled, every client polled twice without activity); S5 schedules are not replayable.")
 checks = {
- "C01": dict(level="exploration", ref="3 C01, Appendix A", tech="runtime monitoring: seeded hostile histories against the real router (stepped through hooks) judged online by a sequential reference broker (exact per-subscription streams, unique message ids)", note=S4_NOTE,
+ "C01": dict(level="exploration", ref="3 C01, Appendix A", tech="runtime monitoring: seeded hostile histories against the real router (stepped through hooks) judged online by a sequential reference broker (exact per-subscription streams, unique message ids); plus threaded rounds with an offline history checker", note=S4_NOTE + S5_ADD,
              text="Every Forward the real router hands to a link is checked against the expected stream of exactly one subscription (accepted, matching, in acceptance order, once, granted QoS, topic/payload intact); at logical quiescent points (all clients drained and acked, router idle) every stream must be complete. Exploration over seeded histories, stepping modes and batch configurations; the right level for a property quantified over all histories and schedules when the deciding step must observe executions."),
  "C03": dict(level="exploration", ref="3 C03", tech="runtime monitoring: hostile event/packet fuzzing of the real router under catch_unwind + overflow checks, router-state invariants from a snapshot hook, service probe at quiescence", note=S4_NOTE,
              text="Every router step (events()/consume()) of hostile histories (protocol violations, bad acks, raw events for unknown/removed ids, stale events of ended links, takeovers, persistent sessions, shared groups, wills) runs under a panic/overflow monitor; after every step the router's own slabs/maps are checked for alignment; every history ends with a full quiescence check of all surviving clients (the broker must still serve)."),
@@ -18,17 +21,17 @@ checks = {
              text="encode->decode equality, exact consumption, reported size == bytes written for the four codecs, and client->broker / broker->client interoperability via a canonical projection; exhaustive over v5 property-presence masks (<=10 properties), flag combinations and remaining-length width boundaries, random beyond."),
  "C05": dict(level="exploration", ref="3 C05", tech="runtime monitoring: arbitrary / mutated byte strings through the four real decoders and the real Framed / Network layers under every chunking, judged by an independent fixed-header parser", note=S1_NOTE,
              text="Outcome class of every decode (packet / malformed / need-more) against an independent fixed-header parser, bytes consumed, max-size enforcement, and chunking independence through tokio_util Framed (client codecs) and rumqttd Network::read/readv; exhaustive for strings of length <=2 and all first-byte x remaining-length-prefix combinations, mutation and random beyond."),
- "C06": dict(level="exploration", ref="3 C06, Appendix A", tech="runtime monitoring: per-connection reply sequence predicted by a sequential reference broker, compared online with every DeviceAck the real router emits", note=S4_NOTE,
+ "C06": dict(level="exploration", ref="3 C06, Appendix A", tech="runtime monitoring: per-connection reply sequence predicted by a sequential reference broker, compared online with every DeviceAck the real router emits; plus threaded rounds with an offline history checker", note=S4_NOTE + S5_ADD,
              text="For the packets each DeviceData step actually consumed the model emits the owed reply sequence; every ack the router puts into a link's buffer must be the head of that link's sequence (kind, packet id, return codes, right client, order) and nothing may be owed at quiescent points; QoS 2 publishes enter the acceptance log only at PUBREL, so a forward before release is spurious."),
  "C08": dict(level="exploration", ref="3 C08", tech="runtime monitoring: seeded histories with persistent sessions ended in every flavour at random points, resume oracle from a sequential reference broker (restart at oldest unacknowledged QoS>0 message)", note=S4_NOTE,
              text="session_present, restored subscriptions, delivery of messages accepted while away, redelivery from the oldest unacknowledged QoS>0 message and no redelivery of acknowledged ones, clean connects starting empty; disconnect flavours: DISCONNECT, link drop, router-initiated close, take-over; sampled (not enumerated) disconnect points, hence exploration."),
  "C09": dict(level="exploration", ref="3 C09", tech="runtime monitoring: boundary shadow of unacknowledged forwards per client at the router/link boundary (window <=100, id uniqueness, close on bad ack) and resumption at quiescence with acks as only stimulus", note=S4_NOTE,
              text="On every QoS>0 forward: packet id non-zero and not in the boundary-unacked set, at most 100 outstanding; unsolicited / out-of-order acks must close that connection and only that one; backlog must be completely forwarded at quiescent points reached with in-order acks as the only stimulus. Reuse of an id between PUBREC and PUBCOMP is counted in the evidence, not judged (see DESIGN.md 'readings')."),
- "C14": dict(level="exploration", ref="3 C14", tech="runtime monitoring: an always-present well-behaved publisher/subscriber pair judged by all delivery/ack oracles while other clients misbehave; closed-without-cause oracle; stale events of ended links injected around slot reuse", note=S4_NOTE,
+ "C14": dict(level="exploration", ref="3 C14", tech="runtime monitoring: an always-present well-behaved publisher/subscriber pair judged by all delivery/ack oracles while other clients misbehave; closed-without-cause oracle; stale events of ended links injected around slot reuse; plus threaded rounds with a hostile reconnect-storm thread", note=S4_NOTE + S5_ADD,
              text="All C01/C06/C09 oracles restricted to the well-behaved pair plus 'a connection may only be closed for its own protocol violation, take-over or on request' for every connection, with the late events remote() can emit (DeviceData, Ready, Disconnect, PublishWill) injected at random positions relative to connects that reuse the slab slot."),
  "C15": dict(level="exploration", ref="3 C15", tech="runtime monitoring: retained map of a sequential reference broker vs every retain-flagged forward of the real router, completeness at quiescence", note=S4_NOTE,
              text="Every retain-flagged forward must be the current retained message of a topic matching a new non-shared subscription, at most once per subscription; live forwards never flagged; no replay on repeated or shared subscriptions; replay complete at quiescent points when it is certain to have fitted the delivery window."),
- "C17": dict(level="exploration", ref="3 C17", tech="runtime monitoring: per-group delivery ledger (message id -> member) over the real router's forwards: disjointness, per-member order, completeness at quiescence", note=S4_NOTE + " Replays of histories that used the Random balancing strategy may not reproduce (the router draws from thread_rng).",
+ "C17": dict(level="exploration", ref="3 C17", tech="runtime monitoring: per-group delivery ledger (message id -> member) over the real router's forwards: disjointness, per-member order, completeness at quiescence", note=S4_NOTE + S5_ADD + " Replays of histories that used the Random balancing strategy may not reproduce (the router draws from thread_rng).",
              text="Per shared group: no message to two members or twice to one (redelivery allowed only for forwards unacknowledged by a connection that ended), per-member acceptance order, nobody receives through a group it left, and at quiescent points every message accepted while the group stayed non-empty has gone to some member; three balancing strategies, QoS 0-2, member churn."),
 }
 S3_NOTE = ("Trusted base: the scripted broker and the M-client model of the harness; the transport hook (verif-hooks: in-memory connector, everything after the socket is the "
